@@ -75,6 +75,22 @@ Definition py_int_of_bytes (s : bytes) : option Z :=
   | None => None
   end.
 
+(* bencoding._strict_int (fix 4abdbc1): the token must match 0|-?[1-9][0-9]* (integers) resp. 0|[1-9][0-9]* (string
+   lengths) before int() is applied -- no sign '+', whitespace, underscores, leading zeros or '-0' *)
+Definition len_shape (s : bytes) : bool :=
+  match s with
+  | [] => false
+  | b :: r => is_digit b && forallb is_digit r && (negb (isb 48 b) || match r with [] => true | _ => false end)
+  end.
+Definition int_shape (s : bytes) : bool :=
+  match s with
+  | [] => false
+  | b :: r => if isb 45 b then match r with c :: _ => negb (isb 48 c) && len_shape r | [] => false end
+              else len_shape s
+  end.
+Definition strict_int (s : bytes) : option Z := if int_shape s then py_int_of_bytes s else None.
+Definition strict_len (s : bytes) : option Z := if len_shape s then py_int_of_bytes s else None.
+
 (* ------------------------------------------------------------------------------------------ *)
 (* bencoded values                                                                             *)
 (* ------------------------------------------------------------------------------------------ *)
@@ -269,7 +285,7 @@ Fixpoint bdec (steps depth : nat) (data : bytes) {struct depth} : res (bval * by
           if isb 105 b then                                   (* 'i' *)
             match find_split 101 rest with
             | Some (num, after) =>
-                match py_int_of_bytes num with
+                match strict_int num with
                 | Some z => Ok (BInt z, after)
                 | None => Err EDecode
                 end
@@ -282,7 +298,7 @@ Fixpoint bdec (steps depth : nat) (data : bytes) {struct depth} : res (bval * by
           else
             match find_split 58 data with
             | Some (num, after) =>
-                match py_int_of_bytes num with
+                match strict_len num with
                 | Some z =>
                     if (z <? 0)%Z then Err EDecode
                     else let (s, rest') := take_clamped (Z.to_N z) after in Ok (BStr s, rest')
@@ -299,8 +315,8 @@ Definition bdecode (fuel : nat) (data : bytes) : res (list (bval * bval)) :=
   | [] => Err EDecode
   | _ => match bdec (S (length data)) fuel data with
          | Err e => Err e
-         | Ok (BDict d, _) => Ok d
-         | Ok (_, _) => Err EDecode
+         | Ok (BDict d, []) => Ok d
+         | Ok (_, _) => Err EDecode        (* bytes after the value / a truncated string; or not a dict *)
          end
   end.
 
@@ -731,9 +747,9 @@ End Handler.
 Definition hash_key_ok (v : bval) : bool :=
   match v with BStr s => blen s =? HASH_LENGTH | _ => false end.
 
-(* KademliaRPC.store: 0 < port < 65535 *)
+(* KademliaRPC.store: 1024 <= port <= 65535 (fix 0c01d02: the range a peer address can carry) *)
 Definition rpc_port_ok (v : bval) : bool :=
-  match v with BInt p => ((0 <? p) && (p <? 65535))%Z | _ => false end.
+  match v with BInt p => ((1024 <=? p) && (p <=? 65535))%Z | _ => false end.
 
 Definition is_int (v : bval) : bool := match v with BInt _ => true | _ => false end.
 
@@ -786,10 +802,12 @@ Section RequestHandler.
   Variables Routing Store Other Addr : Type.
   Notation state := (node_state Routing Store Other Addr).
 
-  (* the routing component stands for the table together with its queued additions/removals and the
-     ping queue; [contact_of] is routing_table.get_peer(node_id) or make_kademlia_peer(...) (None: ValueError,
-     the request is ignored); the remaining pieces are left abstract *)
-  Variable contact_of : state -> Addr -> rawmsg -> option Addr.
+  (* the routing component stands for the table together with its queued additions/removals and the ping queue.
+     After fix 037dcb4 the contact a request is answered to and counted against is the datagram's SOURCE address
+     (a routing-table contact with the same node id at another endpoint is not used); [usable] says whether
+     make_kademlia_peer accepts that address (public IPv4, udp port >= 1024) -- if not, no reply is possible and
+     the failure is recorded all the same.  The remaining pieces are left abstract. *)
+  Variable usable : Addr -> bool.
   Variable note_request : Other -> Addr -> Other.              (* report_last_requested, metrics *)
   Variable error_reply : Other -> Addr -> rawmsg -> Other.     (* the ErrorDatagram handed to the transport *)
   Variable serve : state -> Addr -> rawmsg -> state.           (* a valid request: reply, store, contact bookkeeping *)
@@ -798,13 +816,11 @@ Section RequestHandler.
   Definition handle_request (own : bytes) (st : state) (sender : Addr) (m : rawmsg) : state :=
     let st1 := mk_state _ _ _ _ (routing _ _ _ _ st) (store _ _ _ _ st) (failures _ _ _ _ st)
                         (note_request (other _ _ _ _ st) sender) in
-    match contact_of st sender m with
-    | None => st1
-    | Some c =>
-        if request_valid own m then serve st1 c m
-        else mk_state _ _ _ _ (routing _ _ _ _ st) (store _ _ _ _ st) (c :: failures _ _ _ _ st)
-                      (error_reply (other _ _ _ _ st1) c m)
-    end.
+    if negb (usable sender) then
+      mk_state _ _ _ _ (routing _ _ _ _ st) (store _ _ _ _ st) (sender :: failures _ _ _ _ st) (other _ _ _ _ st1)
+    else if request_valid own m then serve st1 sender m
+    else mk_state _ _ _ _ (routing _ _ _ _ st) (store _ _ _ _ st) (sender :: failures _ _ _ _ st)
+                  (error_reply (other _ _ _ _ st1) sender m).
 
   Definition process_message (own : bytes) (st : state) (sender : Addr) (m : rawmsg) : state :=
     match m with
